@@ -10,7 +10,7 @@ from harness.programs import run_program
 PID = 'C14'
 LEVEL = 'exploration'
 RULE = ('Requester: a real client with honor_lease=True and request_queue_size in {0 (unbounded), 1, 3} against a raw '
-        'granter; Hypothesis generates timelines of events at virtual times: LEASE(n in {0,1,2,5,100}, ttl 1 ms..10 s), '
+        'granter; Hypothesis generates timelines of events at virtual times: LEASE(n in {0,1,2,5,100}, ttl 1 ms..10 s for the requester; 1 ms..2^31-1 ms incl. whole days for the granter), '
         'requests of the four request types (some fragmented), time advances (never within 0.5 ms of an expiry instant). '
         'Oracle = reference lease model replayed over the requester\'s own event log: no request frame before the first '
         'LEASE was yielded; under each lease at most its count of request frames, all before arrival + ttl; a new LEASE '
@@ -182,8 +182,13 @@ def judge_requester(tl):
 def granter_cases(draw):
     leases = draw(st.lists(st.tuples(st.sampled_from([0, 1, 2, 5, 100, 0x7FFFFFFF]),
                                      st.one_of(st.sampled_from([1, 500, 1500, 2500, 10000, 999, 1001]),
-                                               st.integers(1, 100000)),
+                                               st.integers(1, 100000),
+                                               # hours, days, and the 31-bit maximum the default publishers use
+                                               st.sampled_from([3600000, 86399999, 86400000, 86400001, 172803250, 0x7FFFFFFF]),
+                                               st.integers(100000, 0x7FFFFFFF)),
                                      st.sampled_from([0, 100, 200, 400, 600, 900])), min_size=1, max_size=6))
+    # the wire field is 31 bits of milliseconds: keep the published value representable
+    leases = [(n, ms, us if ms < 0x7FFFFFFF else 0) for n, ms, us in leases]
     return {'leases': [list(l) for l in leases], 'msg': draw(st.booleans())}
 
 
